@@ -91,7 +91,8 @@ def gen_cases(rng, tier):
                 probes.append(["del", k] if rng.random() < 0.7 else ["set", k, ""])
             elif r < 0.85:
                 nk = _nib(bytes.fromhex(k))
-                probes.append(["trav", list(nk[:rng.randint(0, len(nk))]) + ([rng.randrange(16)] if rng.random() < 0.3 else [])])
+                probes.append(["trav", [] if rng.random() < 0.15 else
+                               list(nk[:rng.randint(0, len(nk))]) + ([rng.randrange(16)] if rng.random() < 0.3 else [])])
             else:
                 nk = _nib(bytes.fromhex(k))
                 cut = rng.randint(0, len(nk))
@@ -291,6 +292,15 @@ def run_case(case):
                 rexp = "exn missing %s" % hx(bytes(exc.missing_node_hash))
             res.emit("hx.rawop %s %s %s" % (hx(state[1]), hx(key), rv if rv != "" else "-"), rexp)
             res.tags.add("raw-level-missing-tied" if exc is not None else "raw-level-tied")
+        if kind == "trav" and not probe[1]:
+            # root_node is traverse(()) also when the root body is withheld (MissingTraversalNode, same fields)
+            try:
+                out2 = hexlib.fmt_traverse(lambda: target.root_node, True)
+            except (MissingTrieNode, MissingTraversalNode) as e2:
+                out2 = hexlib.fmt_exc(e2)
+            res.tags.add("root_node:" + ("missing-root" if exc is not None else "present"))
+            if out2 != out:
+                res.fail("root-node-differs-from-traverse-empty", "root_node -> %s, traverse(()) -> %s" % (out2, out))
         if tg == "0" and kind == "trav":
             # raw level of the read path on the incomplete database (annotate / _traverse_from over rlp-decoded nodes)
             res.emit("hx.travd %s %s" % (hx(state[1]), nibstr(probe[1])), out)
